@@ -549,4 +549,104 @@ theorem supermajority_comparison_risk_limit_zip (ballots : List CVR) (cvrs : Lis
       exact C02.assort_range_super contest w cands f hf0 hf1 x)
     hne hph margin U hmargin data T s c hc a ha hdata sqrtF cfg test hN ht hcu hT hdoc hr0 hr1 hfalse
 
+/-! ### non-vacuity
+
+Contest "AvB", reported winner `a`, reported loser `b`; card comparison under style-based sampling, five cards.
+The machine reported `a, a, a, b` and one phantom CVR (`make_phantoms`: the contest listed, no votes): `a` wins 3 to 1,
+reported assorter mean 7/10, reported margin 2/5 > 0, test bound 2/(2 − 2/5) = 5/4.
+The manual records: `a`; `b` (the CVR said `a`); a record that does not list the contest (the CVR said `a`); `b`; the
+phantom's card cannot be found.  On the three found ballots `a` has 1 mark and `b` has 2; two records are scored 0.
+The overstatement-assorter values are 5/8, 0, 0, 5/8, 5/16 (mean 5/16 ≤ 1/2). -/
+
+section example_
+open Shangrla.NM
+
+def exBallot (id : String) (m : Marks) : CVR := { id := id, votes := [("AvB", m)] }
+
+/-- what the machine reported -/
+def exReported : List CVR :=
+  [exBallot "1" [("a", .b true)], exBallot "2" [("a", .b true)], exBallot "3" [("a", .b true)],
+   exBallot "4" [("b", .b true)], { id := "5", votes := [("AvB", [])], phantom := true }]
+
+/-- what the auditors see -/
+def exManual : List CVR :=
+  [exBallot "1" [("a", .b true)], exBallot "2" [("b", .b true)],
+   { id := "3", votes := [("other", [("x", .b true)])] }, exBallot "4" [("b", .b true)],
+   { id := "5", phantom := true }]
+
+/-- the CVRs as the overstatement model reads them (no pools) -/
+def exCvrsO : List Cvr := exReported.map (cvrOf (Assorter.plurality "AvB" "a" "b") "AvB" false none 0)
+
+/-- a card: its true ballot and its CVR -/
+def cardsO : List (CVR × Cvr) := exManual.zip exCvrsO
+
+def cfgO : Cfg := { N := some 5, u := 5/4, t := 1/2, randomOrder := true, kw := { eta := some 1 } }
+def dataO : String → String → CVR × Cvr → Option ℚ :=
+  fun _ _ x => cardDatum .cardComparison true (XR.fin (2/5)) 1 none
+    (mvrOf (Assorter.plurality "AvB" "a" "b") "AvB" x.1, x.2)
+def TO : String → String → SeqTest := fun _ _ => NM.run sqrtRat cfgO (.alpha .fixedAlt)
+def sO : State := [{ id := "c", riskLimit := 9/10, assertions := [{ name := "a" }] }]
+
+/-- the CVRs say `a` won comfortably: 3 marks to 1, reported margin 2/5, test bound 5/4 -/
+example : C02.marks "AvB" "a" exReported = 3 ∧ C02.marks "AvB" "b" exReported = 1 ∧
+    setMarginFromCvrs 1 true .cardComparison 1 (cardsO.map Prod.snd) = .ok (XR.fin (2/5), XR.fin (5/4)) := by
+  decide +kernel
+
+/-- the manual records say otherwise: on the found ballots `a` has 1 mark, `b` has 2, and two records are scored 0
+(one unfindable card, one record lacking the contest) -/
+example : C02.marks "AvB" "a" (foundBallots true "AvB" Prod.fst Prod.snd cardsO) = 1 ∧
+    C02.marks "AvB" "b" (foundBallots true "AvB" Prod.fst Prod.snd cardsO) = 2 ∧
+    lostCount true "AvB" Prod.fst Prod.snd cardsO = 2 := by
+  decide +kernel
+
+/-- the data are read off the two models: `mvrOf` of the true ballot, then `mvrs_to_data` -/
+example : cardsO.map (dataO "c" "a") = [some (5 / 8), some 0, some 0, some (5 / 8), some (5 / 16)] := by
+  decide +kernel
+
+/-- every hypothesis of `plurality_comparison_risk_limit_found` is satisfied by this population ... -/
+example : hitG (auditCompleteOpt dataO TO sO) 5 cardsO [] ≤ 9/10 :=
+  plurality_comparison_risk_limit_found Prod.fst Prod.snd cardsO "AvB" "a" "b" .cardComparison (Or.inl rfl) true none
+    MeansFrom.unset (by decide +kernel) (by decide +kernel) (by decide +kernel)
+    (XR.fin (2/5)) (XR.fin (5/4)) (by decide +kernel)
+    dataO TO sO _ (List.mem_singleton.2 rfl) { name := "a" } (by simp) rfl
+    sqrtRat cfgO (.alpha .fixedAlt) (by decide +kernel) rfl rfl rfl
+    ⟨by norm_num [cfgO], ⟨by norm_num [cfgO, eps], by norm_num [cfgO, eps], by norm_num [cfgO]⟩, trivial⟩
+    (by norm_num) (by norm_num) (by decide +kernel)
+
+/-- ... and the bounded event really happens: although on the manual records `b` beat `a`, over the 120 orders of
+the five cards the audit is reported complete with probability 2/5 (kernel-computed) — below the bound 9/10 -/
+theorem example_comparison_outcome_exact : hitG (auditCompleteOpt dataO TO sO) 5 cardsO [] = 2/5 := by
+  decide +kernel
+
+/-! the same five cards for the super-majority assertion "`a` has more than 2/3 of the valid votes" (assorter bound
+`1/(2f) = 3/4`): the CVRs say 3 of 4 valid votes (reported assorter mean 11/20, margin 1/10, test bound 15/14); on
+the found ballots `a` has 1 of 3 valid votes. -/
+
+def exCvrsS : List Cvr :=
+  exReported.map (cvrOf (Assorter.supermajority "AvB" "a" ["b", "a"] (2/3)) "AvB" false none 0)
+def cardsS2 : List (CVR × Cvr) := exManual.zip exCvrsS
+def cfgS2 : Cfg := { N := some 5, u := 15/14, t := 1/2, randomOrder := true, kw := { eta := some (3/4) } }
+def dataS2 : String → String → CVR × Cvr → Option ℚ :=
+  fun _ _ x => cardDatum .cardComparison true (XR.fin (1/10)) (Assorter.superUpper (2/3)) none
+    (mvrOf (Assorter.supermajority "AvB" "a" ["b", "a"] (2/3)) "AvB" x.1, x.2)
+def TS2 : String → String → SeqTest := fun _ _ => NM.run sqrtRat cfgS2 (.alpha .fixedAlt)
+
+example : C02.wvalid "AvB" ["b", "a"] "a" exReported = 3 ∧ C02.valid "AvB" ["b", "a"] exReported = 4 ∧
+    C02.wvalid "AvB" ["b", "a"] "a" (foundBallots true "AvB" Prod.fst Prod.snd cardsS2) = 1 ∧
+    C02.valid "AvB" ["b", "a"] (foundBallots true "AvB" Prod.fst Prod.snd cardsS2) = 3 := by
+  decide +kernel
+
+/-- every hypothesis of `supermajority_comparison_risk_limit_found` is satisfied -/
+example : hitG (auditCompleteOpt dataS2 TS2 sO) 5 cardsS2 [] ≤ 9/10 :=
+  supermajority_comparison_risk_limit_found Prod.fst Prod.snd cardsS2 "AvB" "a" ["b", "a"] (2/3)
+    (by norm_num) (by norm_num) .cardComparison (Or.inl rfl) true none
+    MeansFrom.unset (by decide +kernel) (by decide +kernel) (by decide +kernel)
+    (XR.fin (1/10)) (XR.fin (15/14)) (by decide +kernel)
+    dataS2 TS2 sO _ (List.mem_singleton.2 rfl) { name := "a" } (by simp) rfl
+    sqrtRat cfgS2 (.alpha .fixedAlt) (by decide +kernel) rfl rfl rfl
+    ⟨by norm_num [cfgS2], ⟨by norm_num [cfgS2, eps], by norm_num [cfgS2, eps], by norm_num [cfgS2]⟩, trivial⟩
+    (by norm_num) (by norm_num) (by decide +kernel)
+
+end example_
+
 end Shangrla.RiskLimit
